@@ -641,6 +641,16 @@ def _z3_version():
 def replay_file(prop, path):
     """Re-run a replay file natively (no rebinding); exit 1 if the clause still fails."""
     d = json.load(open(path))
+    if d.get('mode') == 'U' and hasattr(importlib.import_module('contracts.extra_' + prop), 'replay_native_file'):
+        m = importlib.import_module('contracts.extra_' + prop)
+        res = m.replay_native_file(d)
+        print(json.dumps(res, indent=1, default=str))
+        if res is None:
+            print('the replay file carries no failing input (the obligation failed without a counterexample: no-failing-input-found)'); return EXIT_OK
+        if res['broken'] and not res['wf_pre']:
+            print(f"VIOLATION property={prop} replay={path}")
+            return EXIT_VIOLATION
+        print('not reproduced'); return EXIT_OK
     if d.get('mode') == 'U':
         m = importlib.import_module('contracts.extra_' + prop)
         import thermosteam  # noqa
